@@ -75,10 +75,8 @@ func confirmedFailure(c Case, res Result) *Fail {
 	if !res.Fail.Timing {
 		return res.Fail
 	}
-	for k := 0; k < confirmTries; k++ {
-		if again := execute(c); again.Fail != nil && again.Fail.Signature == res.Fail.Signature {
-			return res.Fail
-		}
+	if confirmed(c, res.Fail) {
+		return res.Fail
 	}
 	return nil
 }
